@@ -58,6 +58,7 @@ func driveC16(t *testing.T, out *vEmitter) {
 		{"X-Forwarded-Uri", "/public/x"}, {"X-Forwarded-Uri", "/oauth2/sign_in"}, {"X-Forwarded-Uri", "https://evil.com/"},
 		{"X-Forwarded-For", "10.1.2.3"}, {"X-Real-IP", "10.1.2.3"}, {"X-ProxyUser-IP", "10.1.2.3"}, {"X-Envoy-External-Address", "10.1.2.3"}, {"CF-Connecting-IP", "10.1.2.3"},
 		{"Forwarded", "for=10.1.2.3;host=evil.com;proto=https"},
+		{"X-Forwarded-Uri", "/api/v1/items"}, {"X-Forwarded-Uri", "/ui/"},
 	}
 	type cfg struct {
 		name string
@@ -83,6 +84,15 @@ func driveC16(t *testing.T, out *vEmitter) {
 			o.TrustedIPs = []string{"10.0.0.0/8"}
 			o.RealClientIPHeader = "CF-Connecting-IP"
 		}},
+		// options that classify a request by its URI (api routes answer 401 JSON instead of the sign-in page; skip-auth routes)
+		{"api-routes", func(o *options.Options) {
+			o.APIRoutes = []string{"^/api/", "^/public"}
+		}},
+		{"api-routes+skip-provider-button", func(o *options.Options) {
+			o.APIRoutes = []string{"^/api/"}
+			o.SkipProviderButton = true
+			o.SkipAuthRoutes = []string{"GET=^/public"}
+		}},
 		{"insecure-cookie-relative", func(o *options.Options) {
 			o.Cookie.Secure = false
 			o.SkipProviderButton = true
@@ -91,7 +101,7 @@ func driveC16(t *testing.T, out *vEmitter) {
 	endpoints := []struct{ method, target string }{
 		{"GET", "/"}, {"GET", "/private/page?x=1"}, {"GET", "/public/x"}, {"GET", "/oauth2/auth"}, {"GET", "/oauth2/start?rd=%2Fhome"},
 		{"GET", "/oauth2/sign_in"}, {"GET", "/oauth2/sign_out?rd=https%3A%2F%2Fx.a.example.com%2F"}, {"GET", "/oauth2/callback?code=c&state=abcdefgh12345:/"},
-		{"GET", "/oauth2/userinfo"}, {"OPTIONS", "/"},
+		{"GET", "/oauth2/userinfo"}, {"OPTIONS", "/"}, {"GET", "/api/v1/items"}, {"POST", "/api/v1/items"},
 	}
 	for _, c := range cfgs {
 		// ---- reverse-proxy off: the forwarding headers change nothing ----
@@ -114,53 +124,53 @@ func driveC16(t *testing.T, out *vEmitter) {
 		origins := []origin{{"app.example.com", "", false}, {"app.example.com", "192.0.2.10:40000", false}, {"", "192.0.2.10:40000", false}, {"app.example.com", "@", false}, {"", "@", false},
 			{"app.example.com", "192.0.2.10:40000", true}, {"app.example.com", "10.9.9.9:40000", false}}
 		for _, og := range origins {
-		for _, ep := range endpoints {
-			hostHdr, remoteAddr := og.host, og.remote
-			baseReq, err := vRawRequest(vBuildRaw(ep.method, ep.target, hostHdr, nil, ""))
-			if err != nil {
-				t.Fatal(err)
-			}
-			baseReq.RemoteAddr = remoteAddr
-			if og.tls {
-				baseReq.TLS = &tls.ConnectionState{HandshakeComplete: true}
-			}
-			base := vDecision(e, e.serve(baseReq))
-			// subsets: each header alone, all together, and a few pairs
-			var subsets [][][2]string
-			for _, h := range fwdHeaders {
-				subsets = append(subsets, [][2]string{h})
-			}
-			subsets = append(subsets, fwdHeaders, [][2]string{fwdHeaders[0], fwdHeaders[2], fwdHeaders[4]}, [][2]string{fwdHeaders[1], fwdHeaders[3], fwdHeaders[5], fwdHeaders[8]})
-			for _, hs := range subsets {
-				req, err := vRawRequest(vBuildRaw(ep.method, ep.target, hostHdr, hs, ""))
+			for _, ep := range endpoints {
+				hostHdr, remoteAddr := og.host, og.remote
+				baseReq, err := vRawRequest(vBuildRaw(ep.method, ep.target, hostHdr, nil, ""))
 				if err != nil {
-					continue
+					t.Fatal(err)
 				}
-				req.RemoteAddr = remoteAddr
+				baseReq.RemoteAddr = remoteAddr
 				if og.tls {
-					req.TLS = &tls.ConnectionState{HandshakeComplete: true}
+					baseReq.TLS = &tls.ConnectionState{HandshakeComplete: true}
 				}
-				got := vDecision(e, e.serve(req))
-				out.Obs("pair-off", true, vL("pair", vS(c.name), vS(ep.target), vI(int64(len(hs))), vBool(got == base)))
-				out.Stat("pairs_reverse_proxy_off", 1)
-				if got != base {
-					out.Violation("forwarding/header-changes-decision", "with reverse-proxy off a forwarding header changed the proxy's decision or response",
-						map[string]interface{}{"config": c.name, "endpoint": ep.method + " " + ep.target, "headers": fmt.Sprint(hs), "without": base, "with": got, "host": hostHdr, "remote": remoteAddr})
+				base := vDecision(e, e.serve(baseReq))
+				// subsets: each header alone, all together, and a few pairs
+				var subsets [][][2]string
+				for _, h := range fwdHeaders {
+					subsets = append(subsets, [][2]string{h})
 				}
-			}
-			if og != origins[0] {
-				continue
-			}
-			// correspondence: the OAuth redirect URI
-			for _, hs := range subsets[:7] {
-				req, err := vRawRequest(vBuildRaw(ep.method, ep.target, "app.example.com", hs, ""))
-				if err != nil {
+				subsets = append(subsets, fwdHeaders, [][2]string{fwdHeaders[0], fwdHeaders[2], fwdHeaders[4]}, [][2]string{fwdHeaders[1], fwdHeaders[3], fwdHeaders[5], fwdHeaders[8]})
+				for _, hs := range subsets {
+					req, err := vRawRequest(vBuildRaw(ep.method, ep.target, hostHdr, hs, ""))
+					if err != nil {
+						continue
+					}
+					req.RemoteAddr = remoteAddr
+					if og.tls {
+						req.TLS = &tls.ConnectionState{HandshakeComplete: true}
+					}
+					got := vDecision(e, e.serve(req))
+					out.Obs("pair-off", true, vL("pair", vS(c.name), vS(ep.target), vI(int64(len(hs))), vBool(got == base)))
+					out.Stat("pairs_reverse_proxy_off", 1)
+					if got != base {
+						out.Violation("forwarding/header-changes-decision", "with reverse-proxy off a forwarding header changed the proxy's decision or response",
+							map[string]interface{}{"config": c.name, "endpoint": ep.method + " " + ep.target, "headers": fmt.Sprint(hs), "without": base, "with": got, "host": hostHdr, "remote": remoteAddr})
+					}
+				}
+				if og != origins[0] {
 					continue
 				}
-				req = middlewareapi.AddRequestScope(req, &middlewareapi.RequestScope{ReverseProxy: false})
-				vOAuthRedirectCase(out, e, req, false)
+				// correspondence: the OAuth redirect URI
+				for _, hs := range subsets[:7] {
+					req, err := vRawRequest(vBuildRaw(ep.method, ep.target, "app.example.com", hs, ""))
+					if err != nil {
+						continue
+					}
+					req = middlewareapi.AddRequestScope(req, &middlewareapi.RequestScope{ReverseProxy: false})
+					vOAuthRedirectCase(out, e, req, false)
+				}
 			}
-		}
 		}
 		// ---- reverse-proxy on: only the configured client-IP header can flip the trusted-IP decision ----
 		for _, configured := range []string{"X-Real-IP", "X-Forwarded-For"} {
